@@ -117,6 +117,23 @@ def handleMerge (j : Json) : Json :=
     | .error e => Json.mkObj [("ok", Json.bool false), ("error", Json.str (toString (repr e))), ("labels_ok", Json.bool ok)]
   | _ => Json.mkObj [("error", "no tree")]
 
+def handleReact (j : Json) : Json :=
+  let str (k : String) := ((j.getObjValAs? String k).toOption.getD "").toList
+  let nat (k : String) := (j.getObjValAs? Nat k).toOption.getD 0
+  let elemAt : List (Option Char) := match j.getObjVal? "elemAt" with
+    | .ok (Json.arr a) => a.toList.map (fun x => match x with | Json.str s => s.toList.head? | _ => none)
+    | _ => []
+  let mods : List (List Char) := match j.getObjVal? "mods" with
+    | .ok (Json.arr a) => a.toList.map (fun x => match x with | Json.str s => s.toList | _ => [])
+    | _ => []
+  let v : React.View := ⟨str "name", nat "ncarbon", elemAt, nat "ringC", nat "uronic"⟩
+  match React.reactRound v mods with
+  | .ok st => Json.mkObj [("kind", "ok"), ("full", Json.bool st.full),
+      ("chains", Json.arr (st.chains.map (fun c => Json.arr #[Json.str (String.ofList c.1), Json.str (String.ofList c.2)])).toArray),
+      ("higher", Json.arr (st.higher.map (fun h => Json.str (String.ofList h))).toArray)]
+  | .error e => Json.mkObj [("kind", "error"), ("what", Json.str e)]
+  | .unmodelled => Json.mkObj [("kind", "unmodelled")]
+
 def handle (line : String) : Json :=
   match Json.parse line with
   | .error e => Json.mkObj [("error", Json.str e)]
@@ -137,6 +154,7 @@ def handle (line : String) : Json :=
     | some "cli" => handleCli j
     | some "gate" => handleGate j
     | some "merge" => handleMerge j
+    | some "react" => handleReact j
     | some "ping" => Json.mkObj [("pong", Json.bool true)]
     | _ => Json.mkObj [("error", "unknown op")]
 
